@@ -112,8 +112,10 @@ var errAlpha = []string{
 	`{"@level":"INFO","@message":"upper"}`, // hclog accepts levels in any case and with surrounding blanks
 	`{"@level":"Warn","@message":"mixed","k":"v"}`,
 	`{"@level":" debug ","@message":"padded"}`,
-	`{"@message":7,"request_id":"abc-123"}`, // rejected after decoding, with a field that must not leak anywhere
-	"LEN:B-3",                               // a text line of that length
+	`{"@message":7,"request_id":"abc-123"}`,                // rejected after decoding, with a field that must not leak anywhere
+	`  {"@level":"info","@message":"indented","free":"1"}`, // JSON may be preceded by blanks
+	"\t" + `{"@level":"warn","@message":"tabbed"}`,
+	"LEN:B-3", // a text line of that length
 	"LEN:B-1",
 	"LEN:B",
 	"LEN:B+1",
